@@ -435,3 +435,110 @@ def _lemma_quivers(interp):
 
 from .core import lemma  # noqa
 lemma('cartesian.Diagram.__call__.quivers', _lemma_quivers, ('C19',))
+
+
+# ====================================================================================================================
+# The plumbing between PythonFunctor(ob, ar) and the two lambdas: the four constructors (each real body checked to
+# store the two mappings as given and the factories PRO / Function, `super().__init__` against the contract of the base
+# proved here too), the properties cat.Functor.ob / .ar (a plain function is wrapped in a Quiver) and
+# Quiver.__init__ / __getitem__ (the wrapped function is called with the key, its result is returned).
+_FUNCTORS = (('cat.Functor', 'cat.Ob', 'cat.Arrow'), ('monoidal.Functor', 'monoidal.Ty', 'monoidal.Diagram'),
+             ('rigid.Functor', 'rigid.Ty', 'rigid.Diagram'), ('cartesian.PythonFunctor', 'rigid.PRO', 'cartesian.Function'))
+
+
+def _cls_name(v):
+    return v.name if isinstance(v, VClass) else None
+
+
+def _functor_fields(args, kwargs, ob_default, ar_default, python=False):
+    """the four fields a functor constructor stores (its postcondition)"""
+    self, ob, ar = args[:3]
+    if python:
+        return self, {'_ob': ob, '_ar': ar, 'ob_factory': VClass(ob_default), 'ar_factory': VClass(ar_default)}
+    of = args[3] if len(args) > 3 else kwargs.get('ob_factory')
+    af = args[4] if len(args) > 4 else kwargs.get('ar_factory')
+    of = VClass(ob_default) if of is None or isinstance(of, VNone) else of
+    af = VClass(ar_default) if af is None or isinstance(af, VNone) else af
+    return self, {'_ob': ob, '_ar': ar, 'ob_factory': of, 'ar_factory': af}
+
+
+def _functor_init(cls, ob_default, ar_default):
+    python = cls == 'cartesian.PythonFunctor'
+
+    def params(ex):
+        ob, ar = VPyFun('ob', z3.IntVal(1)), VPyFun('ar', z3.IntVal(1))
+        given = ex.fork(2) if not python else 0
+        kw = {'ob_factory': VClass('rigid.PRO'), 'ar_factory': VClass('cartesian.Function')} if given else {}
+        ex._fi = (ob, ar, kw)
+        return [VObject(cls), ob, ar], kw
+
+    def ensures(interp, args, kwargs, obj):
+        ex = interp.ex
+        ob, ar, kw = ex._fi
+        _, want = _functor_fields([obj, ob, ar], kw, ob_default, ar_default, python)
+        a = obj.attrs
+        ex.prove('C19:%s stores the object mapping it is given' % cls, z3.BoolVal(a.get('_ob') is ob))
+        ex.prove('C19:%s stores the arrow mapping it is given' % cls, z3.BoolVal(a.get('_ar') is ar))
+        for k in ('ob_factory', 'ar_factory'):
+            ex.prove('C19:%s.%s is %s' % (cls, k, want[k].name), z3.BoolVal(_cls_name(a.get(k)) == want[k].name))
+
+    def abstract(interp, args, kwargs):
+        self, fields = _functor_fields(args, kwargs, ob_default, ar_default, python)
+        self.attrs.update(fields)
+        return NONE
+    c = contract(cls + '.__init__', is_init=True, params=params, ensures=ensures, property_ids=('C19',))
+    c.abstract = abstract
+    return c
+
+
+for _cls, _o, _a in _FUNCTORS:
+    _functor_init(_cls, _o, _a)
+
+
+def _p_quiver_init(ex):
+    g = VPyFun('func', z3.IntVal(1))
+    ex._qi = g
+    return [VObject('cat.Quiver'), g], {}
+
+
+def _e_quiver_init(interp, args, kwargs, obj):
+    interp.ex.prove('C19:Quiver keeps the function it wraps', z3.BoolVal(obj.attrs.get('_func') is interp.ex._qi))
+
+
+_c = contract('cat.Quiver.__init__', is_init=True, params=_p_quiver_init, ensures=_e_quiver_init, property_ids=('C19',))
+_c.make = lambda interp, args, kwargs: VObject('cat.Quiver', {'_func': args[0]})
+
+
+def _lemma_quiver(interp):
+    from pyvc import frontend
+    from pyvc.interp import Env
+    ex = interp.ex
+    seen = []
+    result = VVal(T.fresh('image', T.ValS))
+
+    def func(interp_, key):
+        seen.append(key)
+        return result
+    g = VBuiltin('func', func)
+
+    def run(q, args):
+        node, _ = frontend.find(q)
+        return interp.call_function(node, Env(None, {}), args, {}, q)
+    # Quiver(func) keeps func; quiver[key] is func(key)
+    quiver = VObject('cat.Quiver')
+    run('cat.Quiver.__init__', [quiver, g])
+    ex.prove('C19:Quiver keeps the function it wraps', z3.BoolVal(quiver.attrs.get('_func') is g))
+    key = VVal(T.fresh('key', T.ValS))
+    got = run('cat.Quiver.__getitem__', [quiver, key])
+    ex.prove('C19:quiver[key] calls the function once, with the key', z3.BoolVal(len(seen) == 1 and seen[0] is key))
+    ex.prove('C19:quiver[key] is what the function returns', z3.BoolVal(got is result))
+    # Functor.ob / .ar wrap a plain function in a Quiver of that function
+    g_ar = VBuiltin('func_ar', func)
+    F = VObject('cat.Functor', {'_ob': g, '_ar': g_ar})
+    for prop, fn in (('ob', g), ('ar', g_ar)):
+        m = run('cat.Functor.' + prop, [F])
+        ok = isinstance(m, VObject) and m.cls == 'cat.Quiver' and m.attrs.get('_func') is fn
+        ex.prove('C19:Functor.%s of a plain function is the Quiver of that function' % prop, z3.BoolVal(bool(ok)))
+
+
+lemma('cat.Quiver.wraps', _lemma_quiver, ('C19',))
